@@ -134,6 +134,20 @@ func checkC19(c c19Case) (ci caseInfo, err error) {
 	if len(wantWarn) > 0 {
 		ci.label("warnings-compared")
 	}
+	// and nothing is carried from one Parse call to the next either: the first text, parsed again after
+	// everything above, still gives what it gave at first
+	again, errs2, _ := sml.Parse(c.Texts[0])
+	first, _, _ := sml.Parse(c.Texts[0])
+	if len(errs2) > 0 || len(again) != len(first) {
+		return ci, fmt.Errorf("parsing the first text again gives %d message(s), errors %q", len(again), errs2)
+	}
+	for i := range again {
+		if i < len(wantMsgs) {
+			if d := sameMessage(again[i], wantMsgs[i]); d != "" {
+				return ci, fmt.Errorf("the first text parses differently after other texts have been parsed (state carried between calls): %s", d)
+			}
+		}
+	}
 	return ci, nil
 }
 
